@@ -98,6 +98,13 @@ claim("C16", "effect classification of every map-ordered loop (header phis, oute
       "Decides that every loop over a Go map (or reflect MapKeys()) in the parse/prepare paths has only keyed or commutative effects, or is under a len==1 guard, or is tabled with a reason (C16.R1), and that these paths use no clock, "
       "random numbers, environment or goroutines outside the generated-identifier function (R2). Invariance under renaming and equality of two preparations are not decided.", NOTE)
 
+claim("C18", "partial-operation enumeration in handler SSA justified by declared parameter schemas; exact regular-language inclusion (P-regex) between tabled strconv output grammars and declared output patterns; registry and key-table agreement",
+      "Decides handler totality (indexing, float-to-int conversion, assertions, division guarded or justified by the declared parameter pattern), that the declared output pattern of each formatter-wrapping function includes the formatter's "
+      "output grammar (decided exactly, with a counterexample otherwise), determinism of handlers, registration under own ID, and bindConstants' key/pairing shape (C18.R1-R5). The numeric laws themselves are not decided.", NOTE)
+claim("C20", "value-flow and dominance rules on the engine entry points, constant tables for exit codes, who-may-call rule for file access",
+      "Decides that Run classifies the output by the schema of the id Execute returned and flags every error return, that inferred outputs are errors exactly when named error and explicit schemas are returned unchanged, the exit-code table, "
+      "that file access is confined to tabled functions with context-relative resolution, and that RunWorkflow is Parse+Run (C20.R1-R5). Equality with direct execution and independence from the working directory are not decided.", NOTE)
+
 ALL = ["C%02d" % i for i in range(1, 21)]
 for pid in ALL:
     if pid not in P:
